@@ -96,6 +96,13 @@ def gen_dataset(r, depth=0):
                                make_csa2([('EchoLinePosition', 'IS', ['64']), ('ProtocolSliceNumber', 'IS', ['3'])]))
             except Exception:
                 pass
+        # standard elements of a binary VR: kept as text when every byte is printable ASCII, dropped otherwise
+        for btag in r.sample([(0x0042, 0x0011), (0x0400, 0x0404), (0x0028, 0x2000)], r.choice([0, 1, 1, 2])):
+            try:
+                ds.add_new(btag, 'OB', r.choice([b'%PDF-1.4', b'AB\x00\x00', b'\x00\x00\x00\x00', b'AB', b'text  ', b'\x00AB',
+                                                 b'A\x00B ', b' lead', b'\x7f', b'~tilde~', b'ab\n']))
+            except Exception:
+                pass
         if r.random() < 0.5:
             ds.Rows, ds.Columns, ds.BitsAllocated = 2, 2, 16
             ds.PixelData = np.arange(4, dtype=np.uint16).tobytes()
@@ -283,6 +290,15 @@ def main(pid, tier):
                     v = res[k]
                     if not (isinstance(v, list) and len(v) == len(e.value) and all(isinstance(x, dict) for x in v)):
                         fails.append(('convert', 'sequence %s extracted as %r' % (k, type(v))))
+            # binary VRs: the text of the bytes when all of them are printable ASCII, nothing otherwise
+            for e in ds:
+                if e.VR in ('OB', 'OW', 'UN', 'OF', 'OD') and e.tag.group % 2 == 0 and isinstance(e.value, bytes) and e.value \
+                        and e.keyword in ('EncapsulatedDocument', 'MAC', 'ICCProfile'):
+                    printable = all(0x20 <= b_ <= 0x7e for b_ in e.value)
+                    if printable and res.get(e.keyword) != e.value.decode('ascii'):
+                        fails.append(('convert_binary', 'binary element %s = %r extracted as %r' % (e.keyword, e.value, res.get(e.keyword, '<absent>'))))
+                    if not printable and e.keyword in res:
+                        fails.append(('convert_binary', 'binary element %s = %r (not printable ASCII) extracted as %r' % (e.keyword, e.value, res[e.keyword])))
             if 'custom' in rules:
                 for kw in ('ReferencedImageSequence', 'SourceImageSequence', 'EchoTime'):
                     if kw in res:
